@@ -332,6 +332,8 @@ pub struct Peer {
     /// further connections accepted by `ServeH1`
     pub more: Vec<Conn>,
     served: Vec<usize>,
+    /// ServeH1: per connection, the virtual time before which a `/slow/<ms>` request is not answered
+    slow_until: Vec<Option<u64>>,
     /// HTTP/2 endpoint state of the main connection
     pub h2: Option<Box<super::h2::Endpoint>>,
     h2_data_off: usize,
@@ -486,12 +488,12 @@ fn h2_serve(conn: &mut Conn, h2: &mut super::h2::Endpoint, answered: &mut std::c
 
 impl Peer {
     pub fn client(name: &str, script: Vec<Step>) -> Peer {
-        Peer { name: name.into(), listener: None, conn: Conn::closed(), script, pc: 0, wake_ns: None, deferred: None, deferred_turn: false, connect_failed: false, accepted_from: None, h1_seen: 0, more: vec![], served: vec![], h2: None, h2_data_off: 0, h2_answered: Default::default(), h2_pending: vec![], h2_more: vec![] }
+        Peer { name: name.into(), listener: None, conn: Conn::closed(), script, pc: 0, wake_ns: None, deferred: None, deferred_turn: false, connect_failed: false, accepted_from: None, h1_seen: 0, more: vec![], served: vec![], slow_until: vec![], h2: None, h2_data_off: 0, h2_answered: Default::default(), h2_pending: vec![], h2_more: vec![] }
     }
     pub fn server(name: &str, listen: SocketAddr, script: Vec<Step>) -> Peer {
         let l = bind_reuse(listen);
         l.set_nonblocking(true).ok();
-        Peer { name: name.into(), listener: Some(l), conn: Conn::closed(), script, pc: 0, wake_ns: None, deferred: None, deferred_turn: false, connect_failed: false, accepted_from: None, h1_seen: 0, more: vec![], served: vec![], h2: None, h2_data_off: 0, h2_answered: Default::default(), h2_pending: vec![], h2_more: vec![] }
+        Peer { name: name.into(), listener: Some(l), conn: Conn::closed(), script, pc: 0, wake_ns: None, deferred: None, deferred_turn: false, connect_failed: false, accepted_from: None, h1_seen: 0, more: vec![], served: vec![], slow_until: vec![], h2: None, h2_data_off: 0, h2_answered: Default::default(), h2_pending: vec![], h2_more: vec![] }
     }
     pub fn done(&self) -> bool {
         self.pc >= self.script.len() || matches!(self.script.get(self.pc), Some(Step::Done) | Some(Step::Stall) | Some(Step::ServeH1 { .. }) | Some(Step::H2Serve))
@@ -842,6 +844,32 @@ impl Peer {
                         progressed |= c.pump_read(now);
                         let (msgs, _, _) = super::h1::parse_all(&c.rx, false, c.eof || c.reset);
                         while served[ci] < msgs.len() {
+                            // `/slow/<ms>`: the answer ("slow") comes <ms> of virtual time after the request
+                            if let Some(ms) = msgs[served[ci]].target().strip_prefix("/slow/").and_then(|n| n.parse::<u64>().ok()) {
+                                if self.slow_until.len() <= ci {
+                                    self.slow_until.resize(ci + 1, None);
+                                }
+                                match self.slow_until[ci] {
+                                    None => {
+                                        let t = now + ms * 1_000_000;
+                                        self.slow_until[ci] = Some(t);
+                                        self.wake_ns = Some(self.wake_ns.map_or(t, |w| w.min(t)));
+                                        break;
+                                    }
+                                    Some(t) if now < t => {
+                                        self.wake_ns = Some(self.wake_ns.filter(|w| *w > now).map_or(t, |w| w.min(t)));
+                                        break;
+                                    }
+                                    Some(_) => {
+                                        self.slow_until[ci] = None;
+                                        let r = format!("{response_head}\r\nX-Seq: {ci}.{}\r\nContent-Length: 4\r\n\r\nslow", served[ci]).into_bytes();
+                                        c.tx.extend_from_slice(&r);
+                                        served[ci] += 1;
+                                        progressed = true;
+                                        continue;
+                                    }
+                                }
+                            }
                             // `/die/<n>`: the first n bytes of a 1000-byte response, then the connection is closed
                             if let Some(n) = msgs[served[ci]].target().strip_prefix("/die/").and_then(|n| n.parse::<usize>().ok()) {
                                 let full = format!("{response_head}\r\nContent-Length: 1000\r\n\r\n{}", "x".repeat(1000)).into_bytes();
